@@ -29,7 +29,9 @@ NameClasses == {"plain", "upper", "digits_first", "spaces", "dashes", "dots", "p
                 \* names that become a Go keyword only once mangled to a variable name
                 "keyword_cap_Type", "keyword_cap_Range", "keyword_cap_Default", "keyword_cap_Func", "keyword_cap_Map",
                 \* characters that end a Go string literal (names are copied into struct tags and string constants)
-                "backquote", "doublequote", "backslash"}
+                "backquote", "doublequote", "backslash",
+                \* names of the packages the generator itself lays out (a tag becomes a package next to them)
+                "pkg_models", "pkg_operations"}
 
 Case(k, d, pos, cls, t, m, o) == [kind |-> k, doc |-> d, pos |-> pos, cls |-> cls, target |-> t, mode |-> m, opts |-> o]
 DocCases == {Case("doc", d, "-", "-", t, m, o) : d \in DocKinds, t \in Targets, m \in Modes, o \in OptionSets}
